@@ -1003,10 +1003,8 @@ impl BRC20ProgEngine {
         if current_block_height - latest_valid_block_number > MAX_REORG_HISTORY_SIZE {
             return Err("Latest valid block number is too far behind current block height".into());
         }
-        if latest_valid_block_number == current_block_height {
-            return Ok(());
-        }
-
+        // A reorg to the current height still has to drop what was written for the next block
+        // (transactions parked in the pending pool), so it is not skipped
         self.db.write_fn(|db| db.reorg(latest_valid_block_number))
     }
 
